@@ -34,7 +34,7 @@ prop('C02', ['K5', 'K6', 'NS1', 'K2', 'D2', 'T2', 'M7', 'K4', 'T1', 'T1e', 'T3',
      'atoms (T1) and their per-type caches cannot answer for a class that has died (T3, T3b).',
      ['equal dicts flatten equally for all inputs', 'None-removal law', 'predicate idempotence'])
 
-prop('C03', ['K1', 'K3', 'K4', 'K5', 'K7', 'K8', 'M7', 'F1', 'F14', 'F7', 'F10', 'T4', 'T2', 'NS1', 'D2', 'N1', 'N2', 'M1', 'K2', 'D5'],
+prop('C03', ['K1', 'K3', 'K4', 'K5', 'K7', 'K8', 'M7', 'F1', 'F14', 'F7', 'F10', 'T4', 'T2', 'NS1', 'D2', 'N1', 'N2', 'M1', 'K2', 'D5', 'L6'],
      'Sibling traversals agree, decided on the 5 x 11 arm matrix: per kind the same accessor on '
      'the same container class, the same key pipeline, the same arity source (K3); the same '
      'effective visiting order (K4), where a traversal that asks the shared key sort for another order gets it after every stage of the sort (T2) and every traversal hands its options down its own recursion unchanged (NS1) and every public entry point has the same option defaults (F14); the flatten variants read the dict-order mode the same way and record the namespace in the treespec under the same condition (D2); predicate first everywhere (K5); the same validations of a '
@@ -57,7 +57,7 @@ prop('C04', ['T5', 'N1', 'N2', 'N3', 'N4', 'N5', 'N6', 'F8', 'M4', 'K4'],
      'node_entries (M4); the backwards walkers reverse their result (K4).',
      ['accessor(tree) is the leaf', 'prefix-freeness of paths', 'codify/eval agreement'])
 
-prop('C05', ['F1', 'F14', 'F2', 'F3', 'F4', 'F11', 'W2', 'K3', 'M7', 'P1', 'P4', 'M2', 'M3', 'W1', 'U1'],
+prop('C05', ['F1', 'F14', 'F2', 'F3', 'F4', 'F11', 'W2', 'K3', 'M7', 'P1', 'P4', 'M2', 'M3', 'W1', 'U1', 'L6'],
      'tree_map family, structural part: options forwarded unchanged (F1); the six map functions, '
      'three transpose-map and three broadcast-map functions are one normal form modulo the '
      'declared variation points, with the extra iterable first (F2); every rest is matched by an '
@@ -172,7 +172,7 @@ prop('C15', ['E1', 'E2', 'E3', 'E4', 'E5', 'E6', 'K7', 'I2', 'A5', 'D1', 'U1'],
      'the with-block, whatever the body raises (D1). Thorough tier: X1 across 4 CPython configurations.',
      ['reference-count equality after a fault at every k'], thorough_rules=['X1'])
 
-prop('C16', ['K8', 'K9', 'K9py', 'K7', 'I1', 'I2', 'I3', 'I4', 'I5', 'S3', 'U1'],
+prop('C16', ['K8', 'K9', 'K9py', 'K7', 'I1', 'I2', 'I3', 'I4', 'I5', 'S3', 'U1', 'L6'],
      'Memory safety / recursion, structural part: the three forward traversals share one depth '
      'discipline (K8); every recursive cycle of the engine call graph is bounded by '
      'MAX_RECURSION_DEPTH (K9) and Python-level recursion over tree depth is enumerated (K9py); no '
@@ -184,7 +184,7 @@ prop('C16', ['K8', 'K9', 'K9py', 'K7', 'I1', 'I2', 'I3', 'I4', 'I5', 'S3', 'U1']
      'Thorough tier: the #if arms of the accessor wrappers agree across 4 CPython configurations (X1).',
      ['absence of all undefined behaviour'], thorough_rules=['X1'])
 
-prop('C17', ['L1', 'L2', 'L3', 'L4', 'L5', 'T3', 'T3b', 'G3'],
+prop('C17', ['L1', 'L2', 'L3', 'L4', 'L5', 'T3', 'T3b', 'G3', 'L6'],
      'Concurrency, structural part: no call that can run Python code inside a region of a C++ '
      'mutex (these block with the GIL held) (L1); the lock graph is acyclic (L2); every access to '
      'shared engine state is inside a region of its mutex in the right mode (L3); registry '
